@@ -302,7 +302,7 @@ func checkC12(p *Program, r *Report) {
 						gl = append(gl, g)
 					}
 					sort.Strings(gl)
-					if len(gl) == 1 && gl[0] == want {
+					if len(gl) == 1 && (gl[0] == want || dir == "Encode" && gl[0] == writerSubset(want)) {
 						r.OKf("container-layout", key, fnObj.Pos(), "%s: %s", fnObj.Name(), want)
 					} else {
 						r.Fail("container-layout", key, fnObj.Pos(), "%s %s  %s  in %s but the specification's layout of a %s is  %s  (spec/values.grammar:%d)", fnObj.Name(), map[string]string{"Encode": "writes", "Decode": "reads"}[dir], strings.Join(gl, "  or  "), ver, cql, want, sp.line)
@@ -320,6 +320,9 @@ func checkC12(p *Program, r *Report) {
 		}
 	}
 }
+
+// writerSubset: a writer need not produce the optional alternatives ( x / ε ) a reader must accept.
+func writerSubset(want string) string { return strings.ReplaceAll(want, " / ε", "") }
 
 // c12CountGuarded: the success path carries "count > max" = false and "count < 0" = false.
 func c12CountGuarded(st *State, want string) bool {
@@ -375,7 +378,11 @@ func c12TraceString(fn *types.Func, tr []*Sym, st *State, in *Interp) string {
 					if b.Ctl == "return" || b.IsErr == 1 {
 						continue
 					}
-					bodies[strings.Join(render(b.St.trace, b.St), " ")] = true
+					body := strings.Join(render(b.St.trace, b.St), " ")
+					if body == "" {
+						body = "ε"
+					}
+					bodies[body] = true
 				}
 				var bl []string
 				for b := range bodies {
